@@ -1024,7 +1024,7 @@ pub fn gen_c14(rng: &mut Rng) -> Scenario {
   };
   let mut threads = vec![];
   for _ in 0..n_threads {
-    let n_ops = 1 + rng.usize_below(5);
+    let n_ops = 1 + rng.usize_below(if crate::rng::deep() { 8 } else { 5 });
     let mut ops = vec![];
     for _ in 0..n_ops {
       let obj = *rng.pick(&[0usize, 0, 0, 1, 1, 2]);
@@ -1140,7 +1140,7 @@ pub fn gen_c10(rng: &mut Rng) -> Scenario {
     6..=8 => 2,
     _ => 3,
   };
-  let total_ops = 1 + rng.usize_below(8);
+  let total_ops = 1 + rng.usize_below(if crate::rng::deep() { 14 } else { 8 });
   let mut threads: Vec<Vec<Op>> = vec![vec![]; n_threads];
   // bias towards the four cache states per option set and alternating columns
   let c0 = rng.chance(600);
